@@ -323,19 +323,20 @@ Section Model.
         end) (combine objs (slices objs r))).
 
   Record inv_out := { o_wt : bool; o_B : mat; o_D : vec; o_F : mat }.
-  Definition inversion (m : mask) (K : kernel) (d s : vec) (objs : list lobj) (use_w_tilde : bool) (eps : T) : res inv_out :=
+  (* [wt]: which class the factory instantiated (InversionImagingWTilde / InversionImagingMapping) *)
+  Definition inversion (m : mask) (K : kernel) (d s : vec) (objs : list lobj) (wt : bool) (eps : T) : res inv_out :=
     match convolver_init m K with
     | Raise e => Raise e
     | Ok c =>
         let n := length d in
-        if use_wt_eff objs use_w_tilde
+        if wt
         then Ok {| o_wt := true; o_B := op_matrix c objs n; o_D := D_wt c m K objs d s; o_F := F_wt c m K objs s eps |}
         else Ok {| o_wt := false; o_B := op_matrix c objs n; o_D := D_mapping c objs d s; o_F := F_mapping c objs n s eps |}
     end.
-  Definition mapped_data (m : mask) (K : kernel) (n : nat) (objs : list lobj) (use_w_tilde : bool) (r : vec) : res vec :=
+  Definition mapped_data (m : mask) (K : kernel) (n : nat) (objs : list lobj) (wt : bool) (r : vec) : res vec :=
     match convolver_init m K with
     | Raise e => Raise e
-    | Ok c => Ok (if use_wt_eff objs use_w_tilde then mapped_wt c objs n r else mapped_mapping c objs n r)
+    | Ok c => Ok (if wt then mapped_wt c objs n r else mapped_mapping c objs n r)
     end.
 
   (* ================= specification (no frames, no preload, no blocks) ================= *)
@@ -391,11 +392,12 @@ Definition to_lobj (o : qobj) : @lobj QOps :=
 Definition qenc (du : list (list Z)) (dw : qm) (pl : list nat) : @enc QOps := @Build_enc QOps du dw pl.
 
 Inductive case :=
-(* aa.Inversion(dataset, linear_obj_list, settings): class chosen, operated_mapping_matrix, data_vector, curvature_matrix *)
-| KInv (m : mask) (K : qm) (d s : qv) (objs : list qobj) (use_wt : bool) (eps tol : Q)
-       (out_wt : bool) (B : qm) (D : qv) (F : qm)
+(* aa.Inversion(dataset, linear_obj_list, settings): operated_mapping_matrix, data_vector, curvature_matrix of the instance the
+   factory returned ([wt]: it is an InversionImagingWTilde; which class is chosen is not part of the comparison: by the theorems
+   the two give the same values) *)
+| KInv (m : mask) (K : qm) (d s : qv) (objs : list qobj) (wt : bool) (eps tol : Q) (B : qm) (D : qv) (F : qm)
 (* mapped_reconstructed_data for a given reconstruction *)
-| KMapped (m : mask) (K : qm) (n : nat) (objs : list qobj) (use_wt : bool) (tol : Q) (r : qv) (out : qv)
+| KMapped (m : mask) (K : qm) (n : nat) (objs : list qobj) (wt : bool) (tol : Q) (r : qv) (out : qv)
 (* util functions *)
 | KDvBlurred (B : qm) (d s : qv) (tol : Q) (out : qv)
 | KCurvMapping (B : qm) (s : qv) (add : bool) (idx : list nat) (eps tol : Q) (out : qm)
@@ -416,9 +418,9 @@ Inductive case :=
 
 Definition agree (k : case) : bool :=
   match k with
-  | KInv m K d s objs use eps tol out_wt B D F =>
+  | KInv m K d s objs use eps tol B D F =>
       match @inversion QOps m K d s (map to_lobj objs) use eps with
-      | Ok o => Bool.eqb (o_wt o) out_wt && qm_close tol (o_B o) B && qv_close tol (o_D o) D && qm_close tol (o_F o) F
+      | Ok o => qm_close tol (o_B o) B && qv_close tol (o_D o) D && qm_close tol (o_F o) F
       | Raise _ => false
       end
   | KMapped m K n objs use tol r out =>
@@ -462,12 +464,11 @@ Definition enc_shape_ok (du : list (list Z)) (dw : qm) (pl : list nat) (P : nat)
 
 Definition spec_ok (k : case) : bool :=
   match k with
-  | KInv m K d s objs use eps tol out_wt B D F =>
+  | KInv m K d s objs use eps tol B D F =>
       negb (valid_dataset m K) ||
       let lo := map to_lobj objs in
       let Bs := @B_spec QOps m K lo in
-      Bool.eqb out_wt (use && existsb (@is_mapper QOps) lo)
-      && qm_close tol B Bs
+      qm_close tol B Bs
       && qv_close tol D (@D_spec QOps Bs d s (total_P lo))
       && qm_close tol F (@F_spec QOps Bs s (unreg_flags lo) eps)
       && is_symmetric tol F
